@@ -44,7 +44,7 @@ def run_shard(ctx):
     Mix = f"{P}Mix"
     from vlib.universe import warm_up
 
-    ctx.extra["first_use_order"] = warm_up(U, ctx.rng("warm-up"))[:6]
+    ctx.extra["first_use_order"] = warm_up(U, ctx.rng("warm-up"), ctx)[:6]
     for case in ctx.cases(ctx.params["cases"]):
         rng = ctx.rng(case)
         tg = G.TreeGen(rng, U, max_nodes=rng.choice([3, 9, 20]), max_depth=6, max_width=4, share=0.2 if case % 3 == 0 else 0.0, twin=0.25, p_origin=0.4, hostile=0.05, exclude=(f"{P}Ser",), opaque=True)
